@@ -806,6 +806,22 @@ class _BoundedSemaphoreSeam(metaclass=_SeamMeta):
         return SimSemaphore(value) if _caller_is_hdc() else _RealBoundedSemaphore(value)
 
 
+import time as _time
+
+_real_sleep = _time.sleep
+
+
+def _sleep_seam(seconds):
+    """``time.sleep`` called by hdc code inside a simulation is a yield point, not a real delay
+    (there is no simulated clock in hdc-algo; a sleeping thread merely lets others run)."""
+    sim = current_sim()
+    if sim is not None and _caller_is_hdc():
+        sim.probe("hdc_sleep_as_yield")
+        sim.yield_point(("sleep",))
+        return None
+    return _real_sleep(seconds)
+
+
 def install_lock_seam():
     """Synchronisation primitives created *by hdc modules* become simulator-aware; everyone else
     keeps the real ones (Lock, RLock, Event, Condition, Semaphore, BoundedSemaphore)."""
@@ -816,3 +832,4 @@ def install_lock_seam():
         threading.Condition = _ConditionSeam
         threading.Semaphore = _SemaphoreSeam
         threading.BoundedSemaphore = _BoundedSemaphoreSeam
+        _time.sleep = _sleep_seam
